@@ -260,9 +260,21 @@ Section Inv.
       + (* JFull: Flush(CurrentBatch) and hand-off *)
         inversion Hs; subst s'; clear Hs. apply Inv_j_flush; auto.
         intro i. unfold jhand. now rewrite Epc.
+    - (* AExpire *)
+      destruct (o_slot (s_ops R s i)) as [t|] eqn:Esl; [|discriminate].
+      inversion Hs; subst s'; clear Hs. destruct HI as [Hv Hq Ht Hh].
+      constructor; cbn [set_ops s_outq s_pend s_r s_pc s_ops s_todo s_work]; auto.
+      + intros k Hk. rewrite <- (Hv k Hk). unfold view, inside, delivered, jhand.
+        cbn [set_ops s_outq s_pend s_r s_pc s_ops s_todo s_work].
+        destruct (Nat.eq_dec k i) as [->|Hne].
+        * rewrite upd_same. unfold sndb. cbn [o_snd o_out o_batch]. reflexivity.
+        * rewrite upd_other by auto. reflexivity.
+      + intros j b Hj. destruct (Nat.eq_dec j i) as [->|Hne].
+        * rewrite upd_same. cbn [o_batch]. eauto.
+        * rewrite upd_other by auto. eauto.
     - (* ATimer *)
       destruct (o_snd (s_ops R s i)) eqn:Es; try discriminate.
-      destruct (remove1 t (o_armed (s_ops R s i))) as [ar|] eqn:Er; [|discriminate].
+      destruct (remove1 t (o_late (s_ops R s i))) as [ar|] eqn:Er; [|discriminate].
       inversion Hs; subst s'; clear Hs. destruct HI as [Hv Hq Ht Hh].
       constructor; cbn [set_ops s_outq s_pend s_r s_pc s_ops s_todo s_work]; auto.
       + intros k Hk. rewrite <- (Hv k Hk). unfold view, inside, delivered, jhand.
